@@ -253,9 +253,8 @@ extern "C" int harness_main()
 	vp_assert(st.received <= st.written, 22);
 	vp_assert(st.reads_after_eof == 0, 23);
 	// C20: no segment carries more payload than the path MTU
-#if DIR == 0
 	vp_assert(g_mss_violations == 0, 24);
-#endif
+	if (st.written > 0) vp_assert(g_segments > 0, 28);
 	bool const lossless = LOSS == 0 || (drp && drp->dropped == 0);
 #if PROGRESS
 	// history class of this path: was any payload segment tail-dropped by a queue?
